@@ -1,5 +1,5 @@
 (* C08 — per-function judgement evaluated by vm_compute on the allocator dumps. *)
-From SwayV Require Import Base.Util Asm.Model C08.Spec C08.Model.
+From SwayV Require Import Base.Util Asm.Model C08.Spec C08.Model C08.SlotModel.
 Local Open Scope N_scope.
 
 Fixpoint first_false {A} (p : A -> bool) (l : list A) (k : N) : N :=
@@ -51,3 +51,32 @@ Definition judge_spill (before : list op) (spills : list reg) (after : list op) 
   | SpillUnsupported => (8, 0)
   | SpillPanic s => (9, s)
   end.
+
+(* ---- slots read back from the real output (SlotModel.judge_slots), plus a built-in mutant ----
+   merge_op rewrites every spill access (LW/SW on $$locbase at or above the lowest spill slot) to
+   the lowest slot: all spilled registers then share one slot, which judge_slots must refute
+   (code 20) whenever two of them are simultaneously live. *)
+Definition merge_op (wmin : N) (o : op) : op :=
+  match kind o with
+  | KOther opc [OReg a; OReg b; OImm w] =>
+      if andb (orb (andb (N.eqb opc OPC_LW) (N.eqb b R_LOCBASE)) (andb (N.eqb opc OPC_SW) (N.eqb a R_LOCBASE)))
+              (N.leb wmin w)
+      then mkOp (uses o) (defs o) (cdefs o) (se o) (KOther opc [OReg a; OReg b; OImm wmin]) else o
+  | _ => o
+  end.
+
+Definition judge_slots_merged (before : list op) (spills : list reg) (after : list op) : list N :=
+  match align spills before after with
+  | Some ((_, w0) :: evs) =>
+      let wmin := fold_right N.min w0 (map snd evs) in
+      judge_slots before spills (map (merge_op wmin) after)
+  | _ => [21; 2]
+  end.
+
+(* one flat answer per alloc_spill record:
+   [code; where; length js] ++ js ++ jm   with (code, where) = judge_spill, js = judge_slots on the
+   real output, jm = judge_slots on the merged-slot mutant of the real output *)
+Definition judge_spill_all (before : list op) (spills : list reg) (after : list op) : list N :=
+  let '(c, w) := judge_spill before spills after in
+  let js := judge_slots before spills after in
+  c :: w :: N.of_nat (length js) :: js ++ judge_slots_merged before spills after.
